@@ -296,7 +296,8 @@ Qed.
 
 Lemma local_open_inv c sid : CInv c -> CInv (local_open c sid).
 Proof.
-  intros I. unfold local_open. destruct (sget sid (c_streams c)); [exact I|].
+  intros I. unfold local_open. destruct (negb (can_send c sid)); [exact I|]. destruct (sget sid (c_streams c)); [exact I|].
+    destruct (negb (Bool.eqb (client_initiated sid) (c_client c))); [exact I|].
   destruct I. constructor; cbn; try assumption.
   - apply Forall_app; split; [assumption|]. constructor; [|constructor]. split; [apply RB_init|].
     cbn. match goal with |- context[if ?b then _ else _] => destruct b end; lia.
